@@ -32,6 +32,43 @@ CHECKS = {
                     'a dict model of the durable contents')),
 }
 
+MEMO_NOTE = ('samples configurations and histories (not exhaustive); wrapped functions are deterministic, '
+             'equality-respecting and return strings; argument pools never mix values equal across types; '
+             'flat keymaps with variadic signatures only with a sentinel; in-memory archives do not survive a restart')
+MEMO_TECH = TECH % ('call/management/restart/fault histories over the decorator x maxsize x purge x keymap x backend space',
+                    '%s')
+for _p, _txt, _orc in [
+    ('C01', 'every value returned through any of the 12 decorators, at every step of seeded histories mixing calls '
+            '(several spellings), load/dump/clear/toggle/swap, restarts on the same location and clock steps, is '
+            'compared with a direct evaluation of the undecorated function; no exception other than the function\'s own '
+            'may reach the caller', 'a direct evaluation of the undecorated function at every call'),
+    ('C02', 'an evaluation is accepted only if, just before the call, the key was neither resident nor in the attached '
+            'archive; in strict runs (lossless archive attached throughout, graceful restarts, second instances) each '
+            'key is evaluated at most once over the whole history', 'an evaluation log and the observed memory/archive contents before each call'),
+    ('C05', 'after every call len(cache) <= max(maxsize, len before) over histories with bulk load() overfills, '
+            'toggles, restarts and dill copies; maxsize 0/None in keyword and positional spelling; purge empties memory '
+            'on overflow of an archived cache', 'the capacity invariant after every call'),
+    ('C06', 'call-only histories from an empty cache (plus raising calls), up to 400 steps with hit bursts that trigger '
+            'the LRU queue compaction: the set leaving memory on each overflow must be exactly what LRU/MRU/LFU/RR '
+            'select according to last-use stamps and use counts kept by the harness', 'an executable policy model (last-use stamps, use counts) after every call'),
+    ('C07', 'every key leaving memory during a call must be in the attached archive with the same value, no archived '
+            'entry may change or vanish, and in strict runs every computed result stays retrievable', 'the observed memory/archive contents before and after every call'),
+    ('C15', 'info() must equal (hits, misses, loads) classified from the evaluation log and residency before each call, '
+            'plus configured maxsize and current size, after every step of histories with clear/load/dump/toggle/'
+            'restart/clone, raising calls and safe fallbacks', 'counters derived from the evaluation log after every step'),
+    ('C16', 'injected exceptions at seeded calls: the same exception object reaches the caller after one evaluation and '
+            'info/cache/archive are unchanged; a twin world without those calls must show identical observations at '
+            'every other step (exposes corrupted recency/frequency state); safe variants with unhashable/unencodable '
+            'arguments evaluate once and return', 'a lock-step twin world that omits the raising calls'),
+    ('C18', 'key()/lookup() probes at seeded points (resident, evicted, never seen arguments; ignore and tol/deep '
+            'configurations): key() names the entry a call creates, lookup() returns the resident value or raises '
+            'KeyError, neither evaluates; a twin world without probes must show identical observations', 'a lock-step twin world without the probes'),
+    ('C20', 'dill round trip of the decorated function at a seeded step: equal cache contents, info and settings at the '
+            'round trip; the world continuing with the copy and the world continuing with the original must agree at '
+            'every later step (results, resident sets, info); the original is unchanged by what the copy did', 'a lock-step twin world that keeps the original function'),
+]:
+    CHECKS[_p] = ('memosim', 'exploration', '4', _txt, MEMO_NOTE, MEMO_TECH % _orc)
+
 NA = [
     ('C09', 'pure function of (signature, call form, keymap options): no history, schedule, clock, fault or restart for a simulator to vary; DESIGN.md section 5'),
     ('C10', 'pure function of a pair of calls and keymap options; the only process-dependent aspect (hash randomisation) is covered under C17; DESIGN.md section 5'),
